@@ -2,6 +2,7 @@ package main
 
 import (
 	"fmt"
+	"go/token"
 	"go/types"
 	"sort"
 	"strings"
@@ -514,6 +515,32 @@ func (w *Workspace) structuralC19() *FuncResult {
 		if initFn == nil || expFn == nil {
 			res.Obls = append(res.Obls, structural("x/"+mod, "genesis_functions_found", []string{"C19"}, false, "InitGenesis/ExportGenesis not found"))
 			continue
+		}
+		// shape of the import loops: InitGenesis branches only in the headers of its range loops, so every element of
+		// every list is handed to its setter (no filter, early exit or skipped element)
+		{
+			ok, why := true, "straight-line range loops only"
+			for _, b := range initFn.Blocks {
+				for _, ins := range b.Instrs {
+					iff, isIf := ins.(*ssa.If)
+					if !isIf {
+						continue
+					}
+					cmp, isCmp := iff.Cond.(*ssa.BinOp)
+					isRangeHeader := false
+					if isCmp && cmp.Op == token.LSS {
+						if lc, isCall := cmp.Y.(*ssa.Call); isCall {
+							if bi, isB := lc.Call.Value.(*ssa.Builtin); isB && bi.Name() == "len" {
+								isRangeHeader = true
+							}
+						}
+					}
+					if !isRangeHeader {
+						ok, why = false, fmt.Sprintf("InitGenesis of x/%s branches on %s: some listed elements may not be imported", mod, iff.Cond.String())
+					}
+				}
+			}
+			res.Obls = append(res.Obls, structural("x/"+mod+".InitGenesis", "imports_every_listed_element", []string{"C19"}, ok, why))
 		}
 		fromInit, fromExp := reach(initFn), reach(expFn)
 		table := func(fn *ssa.Function, types []string) []string {
